@@ -175,12 +175,12 @@ fn mount_only(img: Image, slot: usize) -> Caught<Result<(), String>> {
 fn valid_grid(tier: &str) -> Vec<ValidCase> {
     let mut out = Vec::new();
     let quick = tier == "quick";
-    let spcs: &[u8] = if quick { &[1, 8, 128] } else { &[1, 2, 4, 8, 16, 32, 64, 128] };
-    let reserveds: &[u16] = if quick { &[1, 32] } else { &[1, 2, 32, 0xFFFF] };
+    let spcs: &[u8] = if quick { &[1, 2, 8, 64, 128] } else { &[1, 2, 4, 8, 16, 32, 64, 128] };
+    let reserveds: &[u16] = if quick { &[1, 32, 0xFFFF] } else { &[1, 2, 32, 0xFFFF] };
     let roots: &[u16] = if quick { &[16, 512] } else { &[16, 32, 512] };
-    let slots: &[usize] = if quick { &[0, 3] } else { &[0, 1, 2, 3] };
-    let ptypes: &[u8] = if quick { &[0x06, 0x0C] } else { &[0x04, 0x06, 0x0E, 0x0B, 0x0C] };
-    let lbas: &[u32] = if quick { &[1, 0x00F0_0001] } else { &[1, 63, 2048, 0x00F0_0001] };
+    let slots: &[usize] = &[0, 1, 2, 3];
+    let ptypes: &[u8] = if quick { &[0x04, 0x06, 0x0B, 0x0C] } else { &[0x04, 0x06, 0x0E, 0x0B, 0x0C] };
+    let lbas: &[u32] = if quick { &[1, 2048, 0x00F0_0001] } else { &[1, 63, 2048, 0x00F0_0001] };
     for fat32 in [false, true] {
         let counts: &[u32] = if fat32 { &[65525, 65526, 2_000_000] } else { &[4085, 4086, 65524] };
         for &clusters in counts {
